@@ -5,6 +5,7 @@
 
 package shp
 
+//@ pred samePtG(a geom.Point, b geom.Point) = biteq(a.X, b.X) && biteq(a.Y, b.Y)
 //@ pred samePt(a geom.Point, b shp.Point) = biteq(a.X, b.X) && biteq(a.Y, b.Y)
 // partsOK: part offsets as the shapefile format defines them (first 0 not required here)
 //@ pred partsOK(parts []int32, n int) = (forall i int :: 0 <= i && i < len(parts) ==> 0 <= parts[i] && parts[i] <= n) && (forall i int :: 0 <= i && i + 1 < len(parts) ==> parts[i] <= parts[i+1])
@@ -110,6 +111,8 @@ package shp
 //@   mode fp
 //@   opt trustpre=geom
 //@   ensures [type] typeof(result) == *shp.Polygon
+//@   ensures [single_ring] len(g) == 1 ==> result.(*shp.Polygon) != nil && len(result.(*shp.Polygon).Points) >= len(g[0]) && (forall k int :: 0 <= k && k < len(g[0]) ==> samePt(g[0][k], result.(*shp.Polygon).Points[k]))
+//@     using mention(ringCopied(parts[0], g[0]))
 //@   loop 1 `for i, r := range g`
 //@     invariant [shape] fresh(parts) && len(parts) == len(g) && #1 <= len(g)
 //@     invariant [fresh_parts] forall a int :: 0 <= a && a < #1 ==> fresh(parts[a])
@@ -122,6 +125,9 @@ package shp
 //@   assert [rings_copied_and_closed] `p := shp.Polygon(*shp.NewPolyLine(parts))` len(parts) == len(g) && (forall a int :: 0 <= a && a < len(g) ==> ringCopied(parts[a], g[a]))
 
 // ---- dispatchers: which converter a geometry / shape type is handed to
+// boxRing: the first five vertices are the closed rectangle (that no sixth one follows is not stated:
+// it depends on geom2polygon's closing rule, which compares with ==)
+//@ pred boxRing(ps []shp.Point, b geom.Bounds) = len(ps) >= 5 && biteq(ps[0].X, b.Min.X) && biteq(ps[0].Y, b.Min.Y) && biteq(ps[1].X, b.Max.X) && biteq(ps[1].Y, b.Min.Y) && biteq(ps[2].X, b.Max.X) && biteq(ps[2].Y, b.Max.Y) && biteq(ps[3].X, b.Min.X) && biteq(ps[3].Y, b.Max.Y) && biteq(ps[4].X, b.Min.X) && biteq(ps[4].Y, b.Min.Y)
 
 //@ func geom2Shp
 //@   prop C16
@@ -132,6 +138,7 @@ package shp
 //@   ensures [null] typeof(g) == nil ==> result1 == nil && typeof(result0) == *shp.Null
 //@   ensures [point] typeof(g) == geom.Point ==> result1 == nil && typeof(result0) == *shp.Point && result0.(*shp.Point) != nil && samePt(g.(geom.Point), *result0.(*shp.Point))
 //@   ensures [polygon] typeof(g) == geom.Polygon || typeof(g) == *geom.Bounds ==> result1 == nil && typeof(result0) == *shp.Polygon
+//@   ensures [box_is_a_five_vertex_rectangle] typeof(g) == *geom.Bounds ==> result0.(*shp.Polygon) != nil && len(result0.(*shp.Polygon).Points) >= 5 && boxRing(result0.(*shp.Polygon).Points, *g.(*geom.Bounds))
 //@   ensures [lines] typeof(g) == geom.LineString || typeof(g) == geom.MultiLineString ==> result1 == nil && typeof(result0) == *shp.PolyLine
 //@   ensures [multipoint] typeof(g) == geom.MultiPoint ==> result1 == nil && typeof(result0) == *shp.MultiPoint && result0.(*shp.MultiPoint) != nil && len(result0.(*shp.MultiPoint).Points) == len(g.(geom.MultiPoint)) && (forall k int :: 0 <= k && k < len(g.(geom.MultiPoint)) ==> samePt(g.(geom.MultiPoint)[k], result0.(*shp.MultiPoint).Points[k]))
 //@   ensures [unsupported] typeof(g) != nil && typeof(g) != geom.Point && typeof(g) != geom.Polygon && typeof(g) != *geom.Bounds && typeof(g) != geom.LineString && typeof(g) != geom.MultiLineString && typeof(g) != geom.MultiPoint ==> result1 != nil && typeof(result0) == nil
